@@ -22,12 +22,22 @@ from gemato.util import (
 class ManifestEntryTIMESTAMP:
     """ISO-8601 timestamp"""
 
-    __slots__ = ['ts']
+    __slots__ = ['_ts']
     tag = 'TIMESTAMP'
 
     def __init__(self, ts):
         assert isinstance(ts, datetime.datetime)
         self.ts = ts
+
+    @property
+    def ts(self):
+        return self._ts
+
+    @ts.setter
+    def ts(self, ts):
+        # the format has one-second resolution; keep the in-memory
+        # value equal to what is written (and read back)
+        self._ts = ts.replace(microsecond=0)
 
     @classmethod
     def from_list(cls, data):
